@@ -14,15 +14,25 @@ pub enum Profile {
     Routing,
     Capacity,
     Kill,
+    /// clients stay connected but send malformed / oversized requests between well-formed ones (C11, C04)
+    Recovery,
+    /// like Recovery, with payload declarations around per-connection limits (C04)
+    Limits,
+    /// well-behaved clients that mostly use Expect: 100-continue and wait for it (C13)
+    Expect,
 }
 
 fn flags_for(prop: &'static str, profile: Profile) -> Flags {
     match profile {
-        Profile::WellBehaved => Flags { poll_must_succeed: true, well_behaved: true, routing: true, capacity: true, witness: None, release: false, prop },
-        Profile::Hostile => Flags { poll_must_succeed: true, well_behaved: false, routing: true, capacity: false, witness: Some(0), release: true, prop },
-        Profile::Routing => Flags { poll_must_succeed: false, well_behaved: false, routing: true, capacity: false, witness: None, release: false, prop },
-        Profile::Capacity => Flags { poll_must_succeed: false, well_behaved: false, routing: true, capacity: true, witness: None, release: true, prop },
-        Profile::Kill => Flags { poll_must_succeed: false, well_behaved: false, routing: true, capacity: false, witness: None, release: false, prop },
+        Profile::WellBehaved => Flags { poll_must_succeed: true, well_behaved: true, routing: true, capacity: true, witness: None, release: false, recovery: false, prop },
+        Profile::Hostile => Flags { poll_must_succeed: true, well_behaved: false, routing: true, capacity: false, witness: Some(0), release: true, recovery: false, prop },
+        Profile::Routing => Flags { poll_must_succeed: false, well_behaved: false, routing: true, capacity: false, witness: None, release: false, recovery: false, prop },
+        Profile::Capacity => Flags { poll_must_succeed: false, well_behaved: false, routing: true, capacity: true, witness: None, release: true, recovery: false, prop },
+        Profile::Kill => Flags { poll_must_succeed: false, well_behaved: false, routing: true, capacity: false, witness: None, release: false, recovery: false, prop },
+        Profile::Recovery | Profile::Limits => {
+            Flags { poll_must_succeed: true, well_behaved: false, routing: true, capacity: false, witness: None, release: false, recovery: true, prop }
+        }
+        Profile::Expect => Flags { poll_must_succeed: true, well_behaved: true, routing: true, capacity: true, witness: None, release: false, recovery: true, prop },
     }
 }
 
@@ -33,7 +43,50 @@ struct GClient {
     marks: Vec<(usize, usize, bool)>,
 }
 
-fn build_script(rng: &mut Rng, id: usize, limit: usize, hostile: bool, nreq: usize, big_ok: bool) -> (Vec<u8>, Vec<(usize, usize, bool)>) {
+/// one request declaring a payload around the limit in force; the body is withheld, partial or complete
+fn build_limit_script(rng: &mut Rng, id: usize, limit: usize) -> (Vec<u8>, Vec<(usize, usize, bool)>) {
+    let mut s = Vec::new();
+    let mut marks = Vec::new();
+    let nreq = rng.range(1, 3);
+    for k in 0..nreq {
+        let tag = format!("c{}r{}", id, k);
+        let cands: Vec<u64> = vec![0, 1, limit.saturating_sub(1) as u64, limit as u64, limit as u64 + 1, (limit as u64).saturating_mul(2) + 3, 4294967295];
+        let n = (*rng.pick(&cands)).min(4294967295);
+        let method = if n == 0 && rng.chance(1, 2) { "GET" } else if rng.chance(1, 2) { "PUT" } else { "PATCH" };
+        let mut head = format!("{} /{} HTTP/1.1\r\n", method, tag);
+        let expects = n > 0 && rng.chance(1, 4);
+        if expects {
+            head.push_str("Expect: 100-continue\r\n");
+        }
+        if n > 0 || rng.chance(1, 3) {
+            head.push_str(&format!("Content-Length: {}\r\n", n));
+        }
+        head.push_str("\r\n");
+        let start = s.len();
+        s.extend(head.as_bytes());
+        let hdr_end = s.len();
+        // the body is only materialised when it is permitted and small; an oversized declaration is
+        // sent without any body byte ("before any body byte is needed")
+        if n as usize <= limit && n <= 6000 {
+            let have = if rng.chance(1, 6) { rng.below(n as usize + 1) } else { n as usize };
+            s.extend((0..have).map(|i| b'a' + (i % 26) as u8));
+            marks.push((hdr_end, s.len(), expects && (n as usize) <= limit));
+            if have < n as usize {
+                break;
+            }
+        } else {
+            marks.push((hdr_end, s.len(), false));
+            if n as usize <= limit {
+                // permitted but too large to materialise: stop the script here (request stays incomplete)
+                break;
+            }
+        }
+        let _ = start;
+    }
+    (s, marks)
+}
+
+fn build_script(rng: &mut Rng, id: usize, limit: usize, hostile: bool, nreq: usize, big_ok: bool, expect_bias: usize) -> (Vec<u8>, Vec<(usize, usize, bool)>) {
     let mut cfg = GenCfg::default_for(limit);
     cfg.corrupt = 0;
     cfg.truncate = 0;
@@ -41,7 +94,7 @@ fn build_script(rng: &mut Rng, id: usize, limit: usize, hostile: bool, nreq: usi
     cfg.random = 0;
     cfg.fatal_hdr = 0;
     cfg.allow_big = false;
-    cfg.expect_bias = 200;
+    cfg.expect_bias = expect_bias;
     let mut s = Vec::new();
     let mut marks = Vec::new();
     for k in 0..nreq {
@@ -103,7 +156,7 @@ pub fn gen_srv_case(rng: &mut Rng, profile: Profile, prop: &'static str) -> SrvC
     let mut flags = flags_for(prop, profile);
     // while generating nothing is fatal except what stops the simulation anyway
     flags.poll_must_succeed = false;
-    flags.well_behaved = profile == Profile::WellBehaved;
+    flags.well_behaved = profile == Profile::WellBehaved || profile == Profile::Expect;
     let mut sim = match ServerSim::new(&case, flags) {
         Ok(s) => s,
         Err(_) => return case,
@@ -114,14 +167,17 @@ pub fn gen_srv_case(rng: &mut Rng, profile: Profile, prop: &'static str) -> SrvC
         Profile::Routing => rng.range(2, 8),
         Profile::Capacity => 13,
         Profile::Kill => rng.range(1, 12),
+        Profile::Recovery | Profile::Limits => rng.range(1, 3),
+        Profile::Expect => rng.range(1, 3),
     };
     let max_active = match profile {
         Profile::Routing => 4,
         _ => 13,
     };
-    let flush_enabled = profile == Profile::WellBehaved && rng.chance(3, 10) || (profile != Profile::WellBehaved && rng.chance(1, 5));
+    let calm = matches!(profile, Profile::Recovery | Profile::Limits | Profile::Expect);
+    let flush_enabled = !calm && (profile == Profile::WellBehaved && rng.chance(3, 10) || (profile != Profile::WellBehaved && rng.chance(1, 5)));
     let faults_enabled = matches!(profile, Profile::Hostile | Profile::Routing) && rng.chance(1, 2);
-    let eintr_enabled = profile != Profile::WellBehaved && rng.chance(1, 2);
+    let eintr_enabled = profile != Profile::WellBehaved && profile != Profile::Expect && rng.chance(1, 2);
     let shuffle = rng.chance(3, 4);
     let big_responses = rng.chance(1, 3);
     let nsteps = match profile {
@@ -172,7 +228,8 @@ pub fn gen_srv_case(rng: &mut Rng, profile: Profile, prop: &'static str) -> SrvC
                 !cl.closed && !cl.shut_rd && !gcs[*c].stalled
             })
             .collect();
-        let hostiles: Vec<usize> = (0..nclients).filter(|c| gcs[*c].hostile && !sim.clients[c].closed).collect();
+        // in the calm profiles clients misbehave only in WHAT they send, never by closing or stalling
+        let hostiles: Vec<usize> = if calm { vec![] } else { (0..nclients).filter(|c| gcs[*c].hostile && !sim.clients[c].closed).collect() };
         let w_poll = if readable { 45 } else { 0 };
         let w_connect = if can_connect {
             if profile == Profile::Capacity {
@@ -195,7 +252,13 @@ pub fn gen_srv_case(rng: &mut Rng, profile: Profile, prop: &'static str) -> SrvC
         } else {
             7
         };
-        let w_setlimit = if profile == Profile::WellBehaved && rng.chance(1, 3) { 1 } else { 0 };
+        let w_setlimit = if profile == Profile::Limits {
+            6
+        } else if profile == Profile::WellBehaved && rng.chance(1, 3) {
+            1
+        } else {
+            0
+        };
         let w_drain = if profile == Profile::Capacity { 2 } else { 0 };
         let w_fault = if faults_enabled && !hostiles.is_empty() { 2 } else { 0 };
         let weights = [w_poll, w_connect, w_send, w_recv, w_resp, w_respall, w_flush, w_hostile, w_setlimit, w_drain, w_fault];
@@ -212,11 +275,19 @@ pub fn gen_srv_case(rng: &mut Rng, profile: Profile, prop: &'static str) -> SrvC
                     Profile::Routing => rng.chance(2, 3),
                     Profile::Capacity => rng.chance(1, 2),
                     Profile::Kill => rng.chance(1, 3),
+                    Profile::Recovery => true,
+                    Profile::Limits => true,
+                    Profile::Expect => false,
                 };
                 let nreq = if profile == Profile::Capacity { rng.range(0, 2) } else { rng.range(1, 4) };
-                let (script, marks) = build_script(rng, id, cur_limit, hostile, nreq, true);
+                let (script, marks) = if profile == Profile::Limits {
+                    build_limit_script(rng, id, cur_limit)
+                } else {
+                    build_script(rng, id, cur_limit, hostile, nreq, true, if profile == Profile::Expect { 800 } else { 200 })
+                };
+                sim.scripts.push(script.clone());
                 case.scripts.push(script);
-                gcs.push(GClient { hostile, stalled: hostile && rng.chance(1, 5), marks });
+                gcs.push(GClient { hostile, stalled: !calm && hostile && rng.chance(1, 5), marks });
                 SStep::Connect(id)
             }
             2 => {
@@ -241,7 +312,19 @@ pub fn gen_srv_case(rng: &mut Rng, profile: Profile, prop: &'static str) -> SrvC
                     }
                 }
                 let next_mark = gcs[c].marks.iter().flat_map(|m| [m.0, m.1]).find(|&p| p > off).unwrap_or(total);
-                let n = match rng.below(6) {
+                if calm {
+                    let at_boundary = off == 0 || gcs[c].marks.iter().any(|m| m.1 == off);
+                    let queued = simkernel::world::with(|w| w.c2s_queued(cl.conn));
+                    if at_boundary && queued > 0 && rng.chance(4, 5) {
+                        // let the server consume (and answer) what was sent before starting the next request
+                        if readable {
+                            let key = if shuffle { rng.next() | 1 } else { 0 };
+                            alive = push(&mut sim, &mut case, SStep::Poll { key, eintr: false }, &mut st);
+                        }
+                        continue;
+                    }
+                }
+                let n = match if calm { *rng.pick(&[1usize, 2, 2, 2, 2, 3]) } else { rng.below(6) } {
                     0 => 1,
                     1 => rng.range(1, 40),
                     2 => next_mark - off,
@@ -280,7 +363,11 @@ pub fn gen_srv_case(rng: &mut Rng, profile: Profile, prop: &'static str) -> SrvC
                 }
             }
             8 => {
-                let l = *rng.pick(&[0usize, 4, 64, 1000, 51200, 100_000]);
+                let l = if profile == Profile::Limits {
+                    *rng.pick(&[0usize, 1, 2, 3, 7, 8, 64, 1023, 1024, 1025, 51199, 51200, 51201, 4294967295])
+                } else {
+                    *rng.pick(&[0usize, 4, 64, 1000, 51200, 100_000])
+                };
                 cur_limit = l;
                 SStep::SetLimit(l)
             }
@@ -335,6 +422,11 @@ pub struct SimProbe {
     pub hangups_with_inflight: u64,
     pub per_client_streams: Vec<(usize, Vec<u8>, Vec<String>)>,
     pub poll_results: Vec<u8>,
+    pub exp_400_total: usize,
+    pub limit_400: usize,
+    pub yield_after_error: bool,
+    pub got_100: usize,
+    pub distinct_limits: usize,
 }
 
 /// Execute an explicit server history under the given oracle flags.
@@ -344,10 +436,18 @@ pub fn exec_srv(case: &SrvCase, flags: Flags, st: &mut Stats, drain: bool) -> Sr
         Err(v) => return SrvOutcome { violation: Some(v), sig: 0, obs: 0, sim_probe: SimProbe::default() },
     };
     let mut violation = None;
+    let trace = std::env::var("MHSIM_TRACE").is_ok();
     for s in &case.steps {
-        if let Err(v) = sim.step(s, st) {
-            violation = Some(v);
-            break;
+        match sim.step(s, st) {
+            Err(v) => {
+                violation = Some(v);
+                break;
+            }
+            Ok(applied) => {
+                if trace {
+                    eprintln!("step {:?} applied={} readable={} outstanding={}", s, applied, sim.readable(), sim.outstanding.len());
+                }
+            }
         }
     }
     if violation.is_none() && drain {
@@ -391,6 +491,16 @@ pub fn exec_srv(case: &SrvCase, flags: Flags, st: &mut Stats, drain: bool) -> Sr
         hangups_with_inflight: sim.closed_with_inflight,
         per_client_streams: streams,
         poll_results: sim.poll_results.clone(),
+        exp_400_total: sim.clients.values().map(|c| c.exp_400).sum(),
+        limit_400: sim.clients.values().map(|c| c.exp_400_kinds.iter().filter(|k| k.is_some()).count()).sum(),
+        yield_after_error: sim.yield_after_error > 0,
+        got_100: sim.got_100_while_withholding as usize,
+        distinct_limits: {
+            let mut l: Vec<usize> = sim.clients.values().map(|c| c.limit_at_accept).collect();
+            l.sort_unstable();
+            l.dedup();
+            l.len()
+        },
     };
     let sig = sim.sig.get();
     // drop the server inside the same world
@@ -851,4 +961,40 @@ impl Prop for C18 {
 pub fn _keep(_m: &crate::model::ModelOut) {
     let _ = (model_stream, WINDOW, FULL_MSG, Accept::Served);
     let _ = |e: &MEvent| matches!(e, MEvent::Error(_));
+}
+
+
+/// Server-level sub-checks of properties that are mainly decided in engine A.
+pub fn gen_sub(rng: &mut Rng, profile: Profile, prop: &'static str) -> J {
+    gen_srv_case(rng, profile, prop).to_json()
+}
+
+pub fn exec_sub(case: &J, profile: Profile, prop: &'static str, st: &mut Stats) -> Result<RunOut, String> {
+    let case = SrvCase::from_json(case)?;
+    let out = exec_srv(&case, flags_for(prop, profile), st, true);
+    let p = &out.sim_probe;
+    let violation = if profile == Profile::Expect && p.out_of_scope { None } else { out.violation };
+    let nontrivial = match profile {
+        Profile::Limits => p.limit_400 > 0 || p.distinct_limits >= 2,
+        Profile::Recovery => p.exp_400_total > 0 && p.yield_after_error,
+        Profile::Expect => p.got_100 > 0,
+        _ => true,
+    };
+    if p.limit_400 > 0 {
+        st.probe("server_400_for_payload_limit");
+    }
+    if p.distinct_limits >= 2 {
+        st.probe("connections_with_different_limits");
+    }
+    if p.got_100 > 0 {
+        st.probe("client_waited_for_100_and_got_it");
+    }
+    if p.exp_400_total > 0 && p.yield_after_error {
+        st.probe("request_yielded_after_400_on_same_connection");
+    }
+    Ok(RunOut { violation, nontrivial, sig: out.sig ^ 0xC0C0, trace_hash: out.obs ^ out.sig.rotate_left(17) })
+}
+
+pub fn shrink_sub(case: &J) -> Vec<J> {
+    shrink_json(case)
 }
